@@ -1,12 +1,13 @@
 /-
 Driver commands of property C03 (core Lean only).  Command names start with "c03.".
 
-  c03.run <pg><cr><fr> <base>,<size>,<hex> … | op …
-      pg, cr, fr ∈ {0,1}: peekGuard / clearOnRebase / failReset (code variant, see Hts.Model.CachedReader.Cfg)
+  c03.run <pg><cr><fr><lg> <base>,<size>,<hex> … | op …
+      pg, cr, fr, lg ∈ {0,1}: peekGuard / clearOnRebase / failReset / lentGuard (code variant, see Hts.Model.CachedReader.Cfg)
       members of the file, then the history:
         s<file>,<blk>   Seek            r<n>  Read(n bytes)      b  ReadByte       B0 / B1  Blocked := false / true
         c-              SetCache(nil)   c<kind>,<cap>[,<victim key>…]   SetCache(new cache); kind L F R SL SF SR;
                         the victim keys are the bases of the blocks the implementation's cache evicted, in order
+        c=<k>           SetCache(the k-th cache object created in this history, with what it holds)     z   the caller sleeps
         S               StatsRecorder.Stats() of the attached cache
       answer: the outcome of NewReader, then per op   <hex bytes>/<ok|eof|err>/<bf>,<bb>,<ef>,<eb>/<cache calls>
       where the cache calls made by the reader during the op are  G<base>=<0|1>  P<base>=<r|k|e<evicted base>> joined by ';'
@@ -133,34 +134,79 @@ def logLen (r : Reader AnyCache) : Nat :=
 def showOut (o : Out) (calls : List String) : String :=
   s!"{hexOfNats o.bytes}/{errStr o.err}/{o.chunk.1.1},{o.chunk.1.2},{o.chunk.2.1},{o.chunk.2.2}/{";".intercalate calls}"
 
-def runOps (cfg : Cfg) (f : File) : Reader AnyCache → List String → List String → List String
-  | _, [], acc => acc.reverse
-  | r, tok :: rest, acc =>
+/-- which of the caller's cache objects (numbered in creation order) is attached and which are detached, in the
+order of `Reader.parked`, with the victim hints each had left when it was detached -/
+structure Objs where
+  cur : Option Nat := none
+  made : Nat := 0
+  ids : List Nat := []
+  hints : List (Nat × List Int) := []
+
+/-- the attached object (if any) is replaced: it goes to the end of `parked` -/
+def Objs.park (ob : Objs) (r : Reader AnyCache) : Objs :=
+  match ob.cur, r.cache with
+  | some k, some _ =>
+    let ids' := ob.ids ++ [k]
+    let hints' := (k, r.hints) :: ob.hints.filter (fun p => p.1 != k)
+    { ob with cur := none, ids := ids', hints := hints' }
+  | _, _ => { ob with cur := none }
+
+def runOps (cfg : Cfg) (f : File) : Reader AnyCache → Objs → List String → List String → List String
+  | _, _, [], acc => acc.reverse
+  | r, ob, tok :: rest, acc =>
+    if tok == "z" then
+      -- the caller sleeps: nothing happens in the sequential reader
+      runOps cfg f r ob rest (showOut ⟨[], .ok, (r.chunkBegin, r.chunkEnd)⟩ [] :: acc)
+    else if tok.startsWith "c=" then
+      match parseNat (tok.drop 2).toString with
+      | none => ("?" :: acc).reverse
+      | some k =>
+        if ob.cur == some k then
+          -- SetCache(the cache that is attached already)
+          runOps cfg f r ob rest (showOut ⟨[], .ok, (r.chunkBegin, r.chunkEnd)⟩ [] :: acc)
+        else
+        match ob.ids.idxOf? k with
+        | none => ("?" :: acc).reverse
+        | some i =>
+          let hs := ((ob.hints.find? (fun p => p.1 == k)).map (·.2)).getD []
+          let ob1 := ob.park r
+          match step cfg anyOps f r (.reattach i hs) with
+          | .error e => (faultStr e :: acc).reverse
+          | .ok (r', out) =>
+            runOps cfg f r' { ob1 with cur := some k, ids := ob1.ids.eraseIdx i } rest (showOut out [] :: acc)
+    else
     match parseOp tok with
     | none => ("?" :: acc).reverse
     | some none =>
       let s := match r.cache.bind AnyCache.stats with
         | some t => s!"{t.gets},{t.misses},{t.puts},{t.retains},{t.evictions}"
         | none => "-"
-      runOps cfg f r rest (s :: acc)
+      runOps cfg f r ob rest (s :: acc)
     | some (some op) =>
       let before := match op with
         | .setCache _ _ => 0
         | _ => logLen r
+      let ob' : Objs := match op with
+        | .setCache (some _) _ => let o1 := ob.park r; { o1 with cur := some o1.made, made := o1.made + 1 }
+        | .setCache none _ => ob.park r
+        | _ => ob
       match step cfg anyOps f r op with
       | .error e => (faultStr e :: acc).reverse
       | .ok (r', out) =>
         let calls := match r'.cache with
           | some a => (a.log.take (a.log.length - before)).reverse
           | none => []
-        runOps cfg f r' rest (showOut out calls :: acc)
+        let calls := match op with
+          | .setCache _ _ => []
+          | _ => calls
+        runOps cfg f r' ob' rest (showOut out calls :: acc)
 
 def handle (cmd : String) (args : List String) : Option String :=
   match cmd, args with
   | "c03.run", cfg :: rest => do
     let bit (c : Char) : Option Bool := if c == '1' then some true else if c == '0' then some false else none
     let cfg : Cfg ← match cfg.toList with
-      | [a, b, c] => do some ⟨← bit a, ← bit b, ← bit c⟩
+      | [a, b, c, d] => do some ⟨← bit a, ← bit b, ← bit c, ← bit d⟩
       | _ => none
     let f ← (rest.takeWhile (· ≠ "|")).mapM parseMember
     let ops := (rest.dropWhile (· ≠ "|")).drop 1
@@ -168,7 +214,7 @@ def handle (cmd : String) (args : List String) : Option String :=
     | .error e => some (faultStr e)
     | .ok (r, e) =>
       if e ≠ .none then some (errStr e.cls)
-      else some (" ".intercalate ("ok" :: runOps cfg f r ops []))
+      else some (" ".intercalate ("ok" :: runOps cfg f r {} ops []))
   | _, _ => none
 
 end Hts.Drv.C03
